@@ -499,6 +499,20 @@ Token *tokenize_string_literal(Token *tok, Type *basety) {
   return t;
 }
 
+// Returns true if the string or character literal whose contents start
+// at `p` is closed by `quote` before the end of the line. An unmatched
+// quote is not an error at this stage (it may sit in a skipped #if
+// group); it becomes a one-character token of its own.
+static bool literal_is_closed(char *p, char quote) {
+  for (; *p != quote; p++) {
+    if (*p == '\\')
+      p++;
+    if (*p == '\n' || *p == '\0')
+      return false;
+  }
+  return true;
+}
+
 // Tokenize a given string and returns new tokens.
 Token *tokenize(File *file) {
   current_file = file;
@@ -561,42 +575,42 @@ Token *tokenize(File *file) {
     }
 
     // String literal
-    if (*p == '"') {
+    if (*p == '"' && literal_is_closed(p + 1, '"')) {
       cur = cur->next = read_string_literal(p, p);
       p += cur->len;
       continue;
     }
 
     // UTF-8 string literal
-    if (startswith(p, "u8\"")) {
+    if (startswith(p, "u8\"") && literal_is_closed(p + 3, '"')) {
       cur = cur->next = read_string_literal(p, p + 2);
       p += cur->len;
       continue;
     }
 
     // UTF-16 string literal
-    if (startswith(p, "u\"")) {
+    if (startswith(p, "u\"") && literal_is_closed(p + 2, '"')) {
       cur = cur->next = read_utf16_string_literal(p, p + 1);
       p += cur->len;
       continue;
     }
 
     // Wide string literal
-    if (startswith(p, "L\"")) {
+    if (startswith(p, "L\"") && literal_is_closed(p + 2, '"')) {
       cur = cur->next = read_utf32_string_literal(p, p + 1, ty_int);
       p += cur->len;
       continue;
     }
 
     // UTF-32 string literal
-    if (startswith(p, "U\"")) {
+    if (startswith(p, "U\"") && literal_is_closed(p + 2, '"')) {
       cur = cur->next = read_utf32_string_literal(p, p + 1, ty_uint);
       p += cur->len;
       continue;
     }
 
     // Character literal
-    if (*p == '\'') {
+    if (*p == '\'' && literal_is_closed(p + 1, '\'')) {
       cur = cur->next = read_char_literal(p, p, ty_int);
       cur->val = (char)cur->val;
       p += cur->len;
@@ -604,7 +618,7 @@ Token *tokenize(File *file) {
     }
 
     // UTF-16 character literal
-    if (startswith(p, "u'")) {
+    if (startswith(p, "u'") && literal_is_closed(p + 2, '\'')) {
       cur = cur->next = read_char_literal(p, p + 1, ty_ushort);
       cur->val &= 0xffff;
       p += cur->len;
@@ -612,14 +626,14 @@ Token *tokenize(File *file) {
     }
 
     // Wide character literal
-    if (startswith(p, "L'")) {
+    if (startswith(p, "L'") && literal_is_closed(p + 2, '\'')) {
       cur = cur->next = read_char_literal(p, p + 1, ty_int);
       p += cur->len;
       continue;
     }
 
     // UTF-32 character literal
-    if (startswith(p, "U'")) {
+    if (startswith(p, "U'") && literal_is_closed(p + 2, '\'')) {
       cur = cur->next = read_char_literal(p, p + 1, ty_uint);
       p += cur->len;
       continue;
